@@ -112,6 +112,10 @@ RT = 1e-15  # PyYAML round-trips doubles exactly; 1e-15 relative leaves room for
 ULP = 1e-13
 LIN = (1e-9, 1e-12)
 
+from kafe2.fit._base.cost import STRING_TO_COST_FUNCTION as _COSTS_BASE  # noqa: E402
+from kafe2.fit.xy.cost import STRING_TO_COST_FUNCTION as _COSTS_XY  # noqa: E402
+
+COST_TABLES = {"xy": set(_COSTS_XY), "indexed": set(_COSTS_BASE), "hist": set(_COSTS_BASE)}
 FIT_CLASSES = {"xy": XYFit, "indexed": IndexedFit, "hist": HistFit, "unbinned": UnbinnedFit, "custom": CustomFit}
 LINEAR_SCALABLE = ["poly0", "poly1", "poly2", "poly3", "trig", "expbasis"]
 XY_FAMILIES = ["poly1", "poly2", "poly3", "trig", "expbasis", "exponential", "gausspeak", "logistic", "poly0", "powerlaw", "sinusoid", "lorentz"]
@@ -935,7 +939,7 @@ def random_cost(rng, ftype, force):
     default = {"xy": "chi2", "indexed": "chi2", "hist": "nll_poisson"}[ftype]
     if rng.random() < 0.45:
         return default
-    keys = sorted(COST_ALIASES)
+    keys = sorted(k for k in COST_ALIASES if k in COST_TABLES[ftype])
     return keys[int(rng.integers(0, len(keys)))]
 
 
@@ -1497,6 +1501,7 @@ def quiescent(ctx, fit):
     """the original is observed at a quiescent point: two consecutive observations must agree (an original whose
     public reads move its own state - minimiser copies after MINOS - is C08's subject, not a save/load defect)"""
     try:
+        obs_fit(fit)  # first read after MINOS synchronises graph and minimiser parameters; observe after that
         o1 = [(g[0], plain(g[1])) for g in obs_fit(fit)]
         o2 = [(g[0], plain(g[1])) for g in obs_fit(fit)]
     except Exception:
